@@ -95,6 +95,10 @@ def check_shape(case):
         world.add_cell_component('Flow', lambda pos, cells: 3)
         world.add_cell_component('zone', lambda pos, cells: (0, 0, 0))
     table = [tuple(p) for p in world.cells['pos']]
+    if case.get('sorted'):
+        # the user ranks the cells by a component, in place: every cell keeps its id as the row label
+        world.add_cell_component('rank', lambda pos, cells: -(7 * pos[0] + 3 * pos[1] + pos[2]) % 5)
+        world.cells.sort_values('rank', inplace=True, kind='stable')
     d3 = list(dims) + [0] * (3 - len(dims))
     rmax = max(max(d3), 1) + 1
     centres = list(enumerate(table))
@@ -299,6 +303,8 @@ def run(ctx):
     # refused queries in between (state left behind on an error path), and falsy wrap flags other than False
     extra = [dict(c, leg='faults', faults=True) for c in cases if c['leg'] == 'shape' and max(c['dims']) <= 3 and
              (c['kind'] != 'discrete' or sorted(c['dims']) in ([0, 2, 3], [1, 2, 3], [2, 2, 2], [0, 0, 3], [3, 3, 3]))]
+    extra += [dict(c, leg='sorted', sorted=True) for c in cases if c['leg'] == 'shape' and
+              c['dims'] in ([3, 2, 2], [0, 3, 2], [4], [4, 4], [3, 2], [2, 3, 3])]
     extra += [dict(c, leg='flag', flag=f) for c in cases if c['leg'] == 'shape' and
               (c['dims'] in ([3, 2, 2], [0, 3, 2], [3], [4, 4], [3, 2])) for f in ('none', 'zero', 'np_false')]
     cases += extra
